@@ -13,7 +13,7 @@ MODEL1 = M([
     ("Rec", M([("fields", M([("a", S("int")), ("b", S("string?")), ("c", S("Pair<int, float>")), ("v", S("double*3")),
                                  ("arr", S("float[x, y]")), ("m", S("string->int")), ("u", Q([S("null"), S("int"), S("string")])),
                                  ("e", S("Color"))])),
-               ("computedFields", M([("n", S("size(m) + a")), ("i1", S("v[1]")), ("i2", S("arr[0, 1]")), ("c1", S("a as double")), ("d1", S("dimensionCount(arr)")), ("sw", M([("u", M([("int", S("1")), ("string", S("2")), ("_", S("0"))]))], "!switch"))]))], "!record")),
+               ("computedFields", M([("n", S("size(m) + (a as size)")), ("i1", S("v[1]")), ("i2", S("arr[0, 1]")), ("c1", S("a as double")), ("d1", S("dimensionCount(arr)")), ("sw", M([("!switch u", M([("int", S("1")), ("string s", S("size(m)")), ("_", S("0"))]))]))]))], "!record")),
     ("Alias", M([("items", S("Rec")), ("length", S("2"))], "!vector")),
     ("Arr", M([("items", S("int")), ("dimensions", M([("x", S("2")), ("y", S("3"))]))], "!array")),
     ("Arr2", M([("items", S("float")), ("dimensions", S("2"))], "!array")),
@@ -44,7 +44,7 @@ def project(root, model_text=None, manifest_text=None):
     for d, ns in (("dep", "Dep"), ("old", "Total")):
         os.makedirs(os.path.join(root, d))
         open(os.path.join(root, d, "_package.yml"), "w").write("namespace: %s\n" % ns)
-        open(os.path.join(root, d, "m.yml"), "w").write(render(MODEL2) if d == "old" else "DepRec: !record\n  fields:\n    q: int\n")
+        open(os.path.join(root, d, "m.yml"), "w").write(render(MODEL2) if d == "old" else "DepRec: !record\n  fields:\n    q: int\nDepG<T>: !record\n  fields:\n    g: T\n")
     os.makedirs(os.path.join(root, "main"))
     open(os.path.join(root, "main", "_package.yml"), "w").write(manifest_text if manifest_text is not None else render(MANIFEST))
     open(os.path.join(root, "main", "m.yml"), "w").write(model_text if model_text is not None else render(MODEL2))
@@ -114,7 +114,14 @@ def main():
                 b[pos:pos] = b[max(0, pos - 20):pos] * rng.choice([2, 50])
         inputs.append(("bytes", kind, bytes(b)))
     # some fixed inputs of the classic kinds
-    for t in ("A: B\nB: A\nE: !enum {base: A, values: [x]}\n", "E: !enum {base: E, values: [x]}\n", "A<T>: A<T>\n", "R: !record {fields: {x: R}}\n",
+    CYC = "R: !record\n  fields:\n    u: [int, float]\n    x: int\n  computedFields:\n"
+    for t in (CYC + "    a: b\n    b: a\n", CYC + "    a: a + 1\n", CYC + "    a: x + b\n    b: size(c)\n    c: a\n",
+              CYC + "    a:\n      !switch u:\n        int: b\n        float: 1\n    b: a\n",
+              CYC + "    a:\n      !switch u:\n        int i: b\n        float f: 1\n    b: a\n",
+              CYC + "    a:\n      !switch u:\n        int i: i + a\n        _: 1\n", CYC + "    a:\n      !switch u:\n        int i: i\n        float f: f\n    b: a\n",
+              "R: !record\n  fields:\n    x: Dep.DepG<R?>\n", "R: !record\n  fields:\n    x: Dep.DepG<S*>\nS: !record\n  fields:\n    y: R\n",
+              "A: Dep.DepG<A>\n", "U: [int, Dep.DepG<U>]\n", "R: !record\n  fields:\n    m: string->Dep.DepG<R>\n",
+              "A: B\nB: A\nE: !enum {base: A, values: [x]}\n", "E: !enum {base: E, values: [x]}\n", "A<T>: A<T>\n", "R: !record {fields: {x: R}}\n",
               "R: !record {fields: {x: int}, computedFields: {c: c}}\n", "R: !record {fields: {v: int*3}, computedFields: {c: v[]}}\n",
               "R: !record {fields: {x: int}, computedFields: {c: 'x as int[0]'}}\n", "A: !array {items: int, dimensions: -1}\n",
               "A: !vector {items: int, length: 99999999999999999999}\n", "X: !generic [a]\n", "X: !generic {name: 5}\n",
@@ -123,6 +130,14 @@ def main():
               "A: !record\n  fields:\n" + "".join("    f%d: int\n" % i for i in range(3000))):
         inputs.append(("fixed", "model", t))
         inputs.append(("fixed", "manifest", t))
+
+    # vacuity guard: the uncorrupted base documents are accepted
+    for i, (kind, t) in enumerate(DOCS):
+        root = os.path.join(sc, "base%d" % i)
+        cwd = project(root, model_text=render(t) if kind == "model" else None, manifest_text=render(t) if kind == "manifest" else None)
+        o = observe(yardl, home, cwd, root, "generate")
+        if o["exit"] != 0:
+            raise Inconclusive("base document %d is not accepted by yardl (the corruptions would be vacuous): %s" % (i, o["stderr"][-600:]))
 
     tl = threading.local()
     counter = itertools.count()
